@@ -45,7 +45,19 @@ RULE = ("one matrix (one dense reference) serves 3-4 solves with different "
         "10 x the loosest tolerance. Options: neigen 4..8, DPR/OLSEN, "
         "min/safe/max, tolerance loose 80% / normal 12% / strict 4% / lapack "
         "4%, search-space limit tight (neigen..2 neigen+update+2) in 90% and "
-        "default in 10%, iteration limit 50 (85%) or 200; same oracle.")
+        "default in 10%, iteration limit 50 (85%) or 200; same oracle. Family "
+        "solver_reuse (320 / 6400 sequences, keys reuse/*): 2..4 solves on ONE "
+        "DavidsonSolver object, all options re-set through the setters between "
+        "the solves; steps: easy diagonally dominant matrix / densely coupled "
+        "or clustered matrix with iteration limit 1..2 and strict|lapack "
+        "tolerance (counted as forced non-convergence only if a fresh solver "
+        "says so, too) / the same matrix with limit 200 / another size and "
+        "neigen / BSE form in HAM mode; after every solve the full oracle "
+        "(keys reuse/symm/..., reuse/ham/...) and the comparison with a fresh "
+        "solver run with identical settings: status identical "
+        "(reuse/status-not-updated), eigenvalues identical "
+        "(reuse/result-of-previous-solve-returned), iteration count identical "
+        "(reuse/options-or-state-carried-over).")
 
 
 def _h(fl):
@@ -91,6 +103,13 @@ def run(chk):
                                     timeout=3000))
             names.append("c09 %s shard %d" % (sizes, s))
     enva = vf.lib_env("asan", {"OMP_NUM_THREADS": "1"})
+    nreuse = vf.tier_n(chk.tier, 320, 6400)
+    per = (nreuse + shards - 1) // shards
+    for s in range(shards):
+        jobs.append(lambda s=s, per=per: vf.run_proc(
+            [ha, "--mode", "reuse", "--seed", str(chk.seed), "--shard", str(s),
+             "--n", str(per)], env=enva, timeout=3000))
+        names.append("c09 solver-reuse shard %d" % s)
     jobs.append(lambda: vf.run_proc([ha, "--mode", "adversarial"], env=enva,
                                     timeout=1200))
     names.append("c09 adversarial set")
